@@ -7,6 +7,8 @@ def check(ctx):
     n1 = filters.check_operators(ctx, rep)
     n2 = filters.check_cmp_guards(ctx, rep)
     n3 = filters.check_reductions(ctx, rep)
+    n4 = filters.check_path_resolution(ctx, rep)
+    rep.floor("path resolution obligations", n4, 3)
     rep.floor("operator table rows", n1, 24)
     rep.floor("comparison guard obligations", n2, 10)
     rep.floor("reduction shapes classified", n3, 7)
